@@ -199,6 +199,10 @@ TraceRebuild == /\ IsEvent("rebuild")
      IF ~usable THEN Obs({}) ELSE
      Obs(IF_((C09 \/ C06) /\ r.k # "ok", {<<"C09", "rebuild-rejected", r.k>>})
          \cup IF_(C06 /\ reach /\ r.k # "ok", {<<"C06", "reachable-position-not-reaccepted-by-builder", r.k>>})
+         \* the builder image of a board is the board's state (ep file as the square behind the pawn)
+         \cup IF_(C09 /\ (r.fb.b # cur.b \/ r.fb.stm # cur.stm \/ r.fb.cr # cur.cr \/ r.fb.hmc # cur.hmc \/ r.fb.fmn # cur.fmn
+                         \/ r.fb.epsq # (IF cur.ep = -1 THEN -1 ELSE SqOf(cur.ep, IF cur.stm = 0 THEN 5 ELSE 2))),
+                 {<<"C09", "builder-image-differs-from-board">>})
          \cup IF_((C09 \/ C03) /\ r.k = "ok" /\ (~r.eq \/ r.st # cur), {<<"C09", "rebuild-not-equal">>}))
 
 \* boards built from the same position by other routes / clocks / without ep
